@@ -32,7 +32,7 @@ use compio_driver::{
     },
 };
 use compio_io::{
-    AsyncRead, AsyncReadManaged, AsyncReadMulti, AsyncWrite, AsyncWriteZerocopy,
+    AsyncRead, AsyncReadManaged, AsyncReadMulti, AsyncWrite, AsyncWriteExt, AsyncWriteZerocopy,
     ancillary::{
         AsyncReadAncillary, AsyncReadAncillaryManaged, AsyncReadAncillaryMulti,
         AsyncWriteAncillary,
@@ -114,7 +114,21 @@ type Ev = [u64; 7];
 #[derive(Default)]
 struct Log {
     ev: RefCell<Vec<Ev>>,
+    /// operations that have been started and have not completed yet
+    /// (`[13 dir idx what a b kind]`), printed when the watchdog fires
+    pending: RefCell<Vec<Option<Ev>>>,
 }
+
+/// what a pending entry waits for
+const P_SEND: u64 = 1;
+const P_RECV: u64 = 2;
+const P_SHUTDOWN: u64 = 3;
+const P_ACCEPT: u64 = 4;
+const P_CLIENT: u64 = 5;
+const P_DG_SEND: u64 = 6;
+const P_DG_RECV: u64 = 7;
+const P_MULTI: u64 = 8;
+const P_SETUP: u64 = 9;
 
 impl Log {
     fn push(&self, e: Ev) -> usize {
@@ -125,11 +139,37 @@ impl Log {
     fn set(&self, i: usize, e: Ev) {
         self.ev.borrow_mut()[i] = e;
     }
+    /// an operation starts: `[dir idx what a b kind]`
+    fn begin(&self, dir: u64, idx: u64, what: u64, a: u64, b: u64, kind: u64) -> usize {
+        let mut p = self.pending.borrow_mut();
+        p.push(Some([13, dir, idx, what, a, b, kind]));
+        p.len() - 1
+    }
+    fn end(&self, id: usize) {
+        self.pending.borrow_mut()[id] = None;
+    }
     fn out(&self) -> Vec<u64> {
         let v = self.ev.borrow();
         let mut o = vec![0, v.len() as u64];
         for e in v.iter() {
             o.extend_from_slice(e);
+        }
+        o
+    }
+    /// the watchdog fired: the transcript so far, then what never completed
+    fn out_stalled(&self) -> Vec<u64> {
+        let mut all: Vec<Ev> = self.ev.borrow().clone();
+        let pend: Vec<Ev> = self.pending.borrow().iter().flatten().copied().collect();
+        if pend.is_empty() {
+            all.push([13, 0, 0, 0, 0, 0, 0]);
+        }
+        all.extend(pend);
+        let mut o = vec![0, all.len() as u64];
+        for e in all.iter() {
+            o.extend_from_slice(e);
+        }
+        if std::env::var_os("C14_DEBUG").is_some() {
+            eprintln!("watchdog; transcript: {all:?}");
         }
         o
     }
@@ -227,6 +267,8 @@ trait Wr {
     async fn zc(&mut self, b: Vec<u8>, defer: bool) -> (io::Result<usize>, Vec<u8>);
     async fn zcv(&mut self, b: Vec<Vec<u8>>, defer: bool) -> (io::Result<usize>, Vec<Vec<u8>>);
     async fn wa(&mut self, b: Vec<u8>) -> BufResult<usize, Vec<u8>>;
+    async fn wall(&mut self, b: Vec<u8>) -> BufResult<(), Vec<u8>>;
+    async fn wvall(&mut self, b: Vec<Vec<u8>>) -> BufResult<(), Vec<Vec<u8>>>;
     async fn wva(&mut self, b: Vec<Vec<u8>>) -> BufResult<usize, Vec<Vec<u8>>>;
     async fn shut(&mut self) -> io::Result<()>;
 }
@@ -366,6 +408,14 @@ macro_rules! impl_stream {
                 let mut s = self.0;
                 anc_w!(s, b)
             }
+            async fn wall(&mut self, b: Vec<u8>) -> BufResult<(), Vec<u8>> {
+                let mut s = self.0;
+                s.write_all(b).await
+            }
+            async fn wvall(&mut self, b: Vec<Vec<u8>>) -> BufResult<(), Vec<Vec<u8>>> {
+                let mut s = self.0;
+                s.write_vectored_all(b).await
+            }
             async fn wva(&mut self, b: Vec<Vec<u8>>) -> BufResult<usize, Vec<Vec<u8>>> {
                 let mut s = self.0;
                 anc_wv!(s, b)
@@ -436,6 +486,12 @@ macro_rules! impl_stream {
                 let mut s: &$S = &*self.0;
                 anc_w!(s, b)
             }
+            async fn wall(&mut self, b: Vec<u8>) -> BufResult<(), Vec<u8>> {
+                self.0.write_all(b).await
+            }
+            async fn wvall(&mut self, b: Vec<Vec<u8>>) -> BufResult<(), Vec<Vec<u8>>> {
+                self.0.write_vectored_all(b).await
+            }
             async fn wva(&mut self, b: Vec<Vec<u8>>) -> BufResult<usize, Vec<Vec<u8>>> {
                 let mut s: &$S = &*self.0;
                 anc_wv!(s, b)
@@ -500,6 +556,12 @@ macro_rules! impl_stream {
             async fn wa(&mut self, b: Vec<u8>) -> BufResult<usize, Vec<u8>> {
                 anc_w!(self.0, b)
             }
+            async fn wall(&mut self, b: Vec<u8>) -> BufResult<(), Vec<u8>> {
+                self.0.write_all(b).await
+            }
+            async fn wvall(&mut self, b: Vec<Vec<u8>>) -> BufResult<(), Vec<Vec<u8>>> {
+                self.0.write_vectored_all(b).await
+            }
             async fn wva(&mut self, b: Vec<Vec<u8>>) -> BufResult<usize, Vec<Vec<u8>>> {
                 anc_wv!(self.0, b)
             }
@@ -560,6 +622,7 @@ async fn run_sender<W: Wr>(mut w: W, ops: Vec<Op>, d: Rc<Dir>) {
                 let buf = pat_vec(d.seed, pos, len, extra);
                 let before = vec_state(&buf);
                 let slot = log.push([1, d.dir, idx, len as u64, 0, 0, op.k]);
+                let pid = log.begin(d.dir, idx, P_SEND, len as u64, pos, op.k);
                 let (res, back) = if op.k == 1 {
                     let BufResult(res, back) = w.w(buf).await;
                     (res, back)
@@ -569,6 +632,7 @@ async fn run_sender<W: Wr>(mut w: W, ops: Vec<Op>, d: Rc<Dir>) {
                 } else {
                     w.zc(buf, defer).await
                 };
+                log.end(pid);
                 let ok = u64::from(vec_state(&back) == before);
                 match res {
                     Ok(n) => {
@@ -593,6 +657,7 @@ async fn run_sender<W: Wr>(mut w: W, ops: Vec<Op>, d: Rc<Dir>) {
                 }
                 let before: Vec<Vec<u64>> = bufs.iter().map(vec_state).collect();
                 let slot = log.push([1, d.dir, idx, total as u64, 0, 0, op.k]);
+                let pid = log.begin(d.dir, idx, P_SEND, total as u64, pos, op.k);
                 let (res, back) = if op.k == 2 {
                     let BufResult(res, back) = w.wv(bufs).await;
                     (res, back)
@@ -602,6 +667,7 @@ async fn run_sender<W: Wr>(mut w: W, ops: Vec<Op>, d: Rc<Dir>) {
                 } else {
                     w.zcv(bufs, defer).await
                 };
+                log.end(pid);
                 let after: Vec<Vec<u64>> = back.iter().map(vec_state).collect();
                 let ok = u64::from(after == before);
                 match res {
@@ -619,9 +685,11 @@ async fn run_sender<W: Wr>(mut w: W, ops: Vec<Op>, d: Rc<Dir>) {
         }
     }
     let slot = log.push([2, d.dir, 0, 0, 0, 0, 0]);
+    let pid = log.begin(d.dir, ops.len() as u64, P_SHUTDOWN, 0, d.spos.get(), 0);
     if let Err(e) = w.shut().await {
         log.set(slot, [2, d.dir, errno_of(&e), 0, 0, 0, 0]);
     }
+    log.end(pid);
 }
 
 impl Dir {
@@ -663,6 +731,13 @@ impl Dir {
 
 /// one receive operation of kind 1..3; returns true when it saw end-of-stream
 async fn recv_once<R: Rd>(r: &mut R, d: &Dir, idx: u64, kind: u64, a: u64, b: u64) -> bool {
+    let pid = d.log.begin(d.dir, idx, P_RECV, a, d.rpos.get(), kind);
+    let eof = recv_once_inner(r, d, idx, kind, a, b).await;
+    d.log.end(pid);
+    eof
+}
+
+async fn recv_once_inner<R: Rd>(r: &mut R, d: &Dir, idx: u64, kind: u64, a: u64, b: u64) -> bool {
     let log = &d.log;
     match kind {
         1 | 6 => {
@@ -789,11 +864,13 @@ async fn run_receiver<R: Rd>(mut r: R, ops: Vec<Op>, d: Rc<Dir>) {
                         }
                     }
                 };
+                let pid = log.begin(d.dir, idx, P_MULTI, op.a, d.rpos.get(), kind);
                 let (reason, items) = if kind == 4 {
                     r.multi(op.a as usize, &mut sink).await
                 } else {
                     r.multi_anc(&mut sink).await
                 };
+                log.end(pid);
                 if reason == 0 {
                     let pos = d.eof();
                     log.push([4, d.dir, idx, 0, items, pos, 0]);
@@ -947,10 +1024,10 @@ fn stream_case(c: &mut Case) -> Result<Vec<u64>, BadCase> {
         .is_ok()
     });
     if !fin {
-        if std::env::var_os("C14_DEBUG").is_some() {
-            eprintln!("hang; events so far: {:?}", log.ev.borrow());
+        for d in [&d1, &d2] {
+            log.push([19, d.dir, d.sent.borrow().len() as u64, d.rcvd.borrow().len() as u64, 0, 0, 0]);
         }
-        return Ok(vec![2, 8]);
+        return Ok(log.out_stalled());
     }
     summary(&d1);
     summary(&d2);
@@ -1388,10 +1465,14 @@ fn dgram_case(c: &mut Case) -> Result<Vec<u64>, BadCase> {
             let mut sent = 0usize;
             for i in 0..nsingle {
                 while sent < n.min(i + window as usize).min(if mcount > 0 { nsingle } else { n }) {
+                    let pid = log.begin(0, sent as u64, P_DG_SEND, ds[sent].size, 0, ds[sent].skind);
                     dg_send(&txs[ds[sent].sender as usize], seed, sent as u64, ds[sent], &log).await;
+                    log.end(pid);
                     sent += 1;
                 }
+                let pid = log.begin(0, i as u64, P_DG_RECV, ds[i].cap, ds[i].size, ds[i].rkind);
                 dg_recv(&rx, tr, i as u64, ds[i], &log).await;
+                log.end(pid);
             }
             // multishot phase: one stream for the last `mcount` datagrams
             if mcount > 0 {
@@ -1403,10 +1484,15 @@ fn dgram_case(c: &mut Case) -> Result<Vec<u64>, BadCase> {
                         let mut errs = 0;
                         while got < n && errs < 64 {
                             while sent < n.min(got + window as usize) {
+                                let pid = log.begin(0, sent as u64, P_DG_SEND, ds[sent].size, 0, ds[sent].skind);
                                 dg_send(&txs[ds[sent].sender as usize], seed, sent as u64, ds[sent], &log).await;
+                                log.end(pid);
                                 sent += 1;
                             }
-                            match st.next().await {
+                            let pid = log.begin(0, got as u64, P_DG_RECV, 0, ds[got].size, 10 + mkind);
+                            let item = st.next().await;
+                            log.end(pid);
+                            match item {
                                 Some(Ok($item)) => {
                                     log.push([5, got as u64, $n, $addr, $fl, hash_of(&managed_state($data)), 10 + mkind]);
                                     got += 1;
@@ -1441,7 +1527,7 @@ fn dgram_case(c: &mut Case) -> Result<Vec<u64>, BadCase> {
         .is_ok()
     });
     if !fin {
-        return Ok(vec![2, 8]);
+        return Ok(log.out_stalled());
     }
     drop(rt);
     Ok(log.out())
@@ -1449,6 +1535,17 @@ fn dgram_case(c: &mut Case) -> Result<Vec<u64>, BadCase> {
 
 // ---------------------------------------------------------------------------
 // accept mode
+
+/// runs its closure when the owning task finishes normally; a task that is
+/// torn down with the runtime (watchdog) is reported as pending instead
+struct Finish(Option<Box<dyn FnOnce()>>);
+impl Finish {
+    fn done(mut self) {
+        if let Some(f) = self.0.take() {
+            f()
+        }
+    }
+}
 
 struct Gate {
     done: Cell<u64>,
@@ -1491,10 +1588,14 @@ macro_rules! accept_body {
             let gate = gate.clone();
             let fut = $connect;
             clients.push(compio_runtime::spawn(async move {
+                let pid = log.begin(0, i, P_CLIENT, 0, 0, 0);
+                let log2 = log.clone();
+                let fin = Finish(Some(Box::new(move || log2.end(pid))));
                 let mut s: $S = match fut.await {
                     Ok(s) => s,
                     Err(e) => {
                         log.push([11, i, 0, 3, errno_of(&e), 0, 0]);
+                        fin.done();
                         gate.arrive();
                         return;
                     }
@@ -1508,6 +1609,7 @@ macro_rules! accept_body {
                     _ => 2,
                 };
                 log.push([11, i, lport, st, 0, 0, 0]);
+                fin.done();
                 gate.arrive();
             }));
         }
@@ -1526,7 +1628,10 @@ macro_rules! accept_body {
             {
                 let mut inc = l.incoming();
                 while served < want {
-                    match inc.next().await {
+                    let pid = log.begin(0, served, P_ACCEPT, k, served, 2);
+                    let item = inc.next().await;
+                    log.end(pid);
+                    match item {
                         Some(Ok(s)) => {
                             let port: u64 = $port_of(&s);
                             serve(s, 2, port, log.clone()).await;
@@ -1552,7 +1657,10 @@ macro_rules! accept_body {
                 }
                 let acc = std::pin::pin!(l.accept());
                 let wait = std::pin::pin!(GateWait(gate.clone()));
-                match futures_util::future::select(acc, wait).await {
+                let pid = log.begin(0, served, P_ACCEPT, k, served, 1);
+                let sel = futures_util::future::select(acc, wait).await;
+                log.end(pid);
+                match sel {
                     futures_util::future::Either::Left((Ok((s, _a)), _)) => {
                         let port: u64 = $port_of(&s);
                         serve(s, 1, port, log.clone()).await;
@@ -1614,8 +1722,289 @@ fn accept_case(c: &mut Case) -> Result<Vec<u64>, BadCase> {
         .is_ok()
     });
     if !fin {
-        return Ok(vec![2, 8]);
+        return Ok(log.out_stalled());
     }
+    drop(rt);
+    Ok(log.out())
+}
+
+// ---------------------------------------------------------------------------
+// bulk mode: back-pressure.  One direction only: X writes several MiB (far
+// above the socket buffers) with every send flavour, Y ONLY reads and never
+// sends a byte, so a blocked send can be resumed by nothing but the socket
+// becoming writable (and a blocked receive by nothing but it becoming readable).
+//   case: 4 drv tr split sbuf rbuf seed who delay pace rcap nops (kind total chunk)*
+//   who = 0: the reader starts `delay` ms late (the writer hits the full buffer)
+//   who = 1: the writer starts `delay` ms late (the reader blocks on an empty socket)
+//   kinds: 1 write loop, 2 write_vectored loop, 3 write_all, 4 write_vectored_all,
+//          5 write_zerocopy loop, 6 write_zerocopy_vectored loop
+
+struct Bulk {
+    seed: u64,
+    spos: Cell<u64>,
+    rpos: Cell<u64>,
+    reads_done: Cell<u64>,
+    /// send calls during which the reader completed at least one read
+    spanned: Cell<u64>,
+    eofs: Cell<u64>,
+    mismatch: Cell<bool>,
+    log: Rc<Log>,
+}
+
+fn bulk_buf(seed: u64, pos: u64, len: usize) -> Vec<u8> {
+    (0..len as u64).map(|i| pat(seed, pos + i)).collect()
+}
+
+fn bulk_bufs(seed: u64, pos: u64, len: usize) -> Vec<Vec<u8>> {
+    let mut out = Vec::new();
+    let mut p = pos;
+    for sz in split_sizes(len, 3) {
+        out.push(bulk_buf(seed, p, sz));
+        p += sz as u64;
+    }
+    out
+}
+
+fn csum(v: &[u8]) -> u64 {
+    v.iter().fold(v.len() as u64, |a, &b| a.wrapping_mul(31).wrapping_add(b as u64))
+}
+
+async fn bulk_sender<W: Wr>(mut w: W, ops: Vec<Op>, b: Rc<Bulk>, delay: u64) {
+    let log = b.log.clone();
+    if delay > 0 {
+        sleep(Duration::from_millis(delay)).await;
+    }
+    'ops: for (idx, op) in ops.iter().enumerate() {
+        let idx = idx as u64;
+        let total = op.a;
+        let mut done = 0u64;
+        while done < total {
+            let pos = b.spos.get();
+            let whole = matches!(op.k, 3 | 4);
+            let offered = if whole { total } else { op.b.min(total - done) } as usize;
+            let slot = log.push([1, 1, idx, offered as u64, 0, 0, op.k]);
+            let pid = log.begin(1, idx, P_SEND, offered as u64, pos, op.k);
+            let reads0 = b.reads_done.get();
+            // (result, buffer returned unchanged)
+            let (res, ok): (io::Result<usize>, bool) = match op.k {
+                1 => {
+                    let buf = bulk_buf(b.seed, pos, offered);
+                    let c = csum(&buf);
+                    let BufResult(r, back) = w.w(buf).await;
+                    (r, csum(&back) == c)
+                }
+                3 => {
+                    let buf = bulk_buf(b.seed, pos, offered);
+                    let c = csum(&buf);
+                    let BufResult(r, back) = w.wall(buf).await;
+                    (r.map(|_| offered), csum(&back) == c)
+                }
+                5 => {
+                    let buf = bulk_buf(b.seed, pos, offered);
+                    let c = csum(&buf);
+                    let (r, back) = w.zc(buf, false).await;
+                    (r, csum(&back) == c)
+                }
+                2 | 4 | 6 => {
+                    let bufs = bulk_bufs(b.seed, pos, offered);
+                    let c: Vec<u64> = bufs.iter().map(|m| csum(m)).collect();
+                    let (r, back) = match op.k {
+                        2 => {
+                            let BufResult(r, back) = w.wv(bufs).await;
+                            (r, back)
+                        }
+                        4 => {
+                            let BufResult(r, back) = w.wvall(bufs).await;
+                            (r.map(|_| offered), back)
+                        }
+                        _ => w.zcv(bufs, false).await,
+                    };
+                    (r, back.iter().map(|m| csum(m)).collect::<Vec<u64>>() == c)
+                }
+                _ => (Err(io::Error::from_raw_os_error(9998)), false),
+            };
+            log.end(pid);
+            if b.reads_done.get() > reads0 {
+                b.spanned.set(b.spanned.get() + 1);
+            }
+            match res {
+                Ok(n) => {
+                    let n = n.min(offered) as u64;
+                    b.spos.set(pos + n);
+                    done += n;
+                    log.set(slot, [1, 1, idx, offered as u64, n, u64::from(ok), op.k]);
+                    if n == 0 && offered > 0 {
+                        continue 'ops;
+                    }
+                }
+                Err(e) => {
+                    log.set(slot, [7, 1, idx, errno_of(&e), 0, u64::from(ok), op.k]);
+                    continue 'ops;
+                }
+            }
+        }
+    }
+    let slot = log.push([2, 1, 0, 0, 0, 0, 0]);
+    let pid = log.begin(1, ops.len() as u64, P_SHUTDOWN, 0, b.spos.get(), 0);
+    if let Err(e) = w.shut().await {
+        log.set(slot, [2, 1, errno_of(&e), 0, 0, 0, 0]);
+    }
+    log.end(pid);
+}
+
+async fn bulk_receiver<R: Rd>(mut r: R, b: Rc<Bulk>, delay: u64, pace: u64, rcap: usize) {
+    let log = b.log.clone();
+    if delay > 0 {
+        sleep(Duration::from_millis(delay)).await;
+    }
+    let mut idx = 0u64;
+    let mut eofs = 0;
+    while eofs < 2 && idx < 1_000_000 {
+        let pos = b.rpos.get();
+        let pid = log.begin(1, idx, P_RECV, rcap as u64, pos, 1);
+        let BufResult(res, buf) = r.r(Vec::with_capacity(rcap)).await;
+        log.end(pid);
+        b.reads_done.set(b.reads_done.get() + 1);
+        match res {
+            Ok(n) => {
+                let ok = buf.len() == n
+                    && buf.iter().enumerate().all(|(i, &x)| x == pat(b.seed, pos + i as u64));
+                if !ok {
+                    b.mismatch.set(true);
+                }
+                b.rpos.set(pos + n as u64);
+                log.push([3, 1, idx, n as u64, pos, u64::from(ok), 1]);
+                if n == 0 {
+                    eofs += 1;
+                    b.eofs.set(b.eofs.get() + 1);
+                }
+            }
+            Err(e) => {
+                log.push([6, 1, idx, errno_of(&e), 0, 0, 1]);
+                break;
+            }
+        }
+        idx += 1;
+        if pace > 0 && idx % pace == 0 {
+            sleep(Duration::from_millis(1)).await;
+        }
+    }
+}
+
+macro_rules! bulk_pair_run {
+    ($x:expr, $y:expr, $split:expr, $ops:expr, $b:expr, $sd:expr, $rd:expr, $pace:expr, $rcap:expr) => {{
+        let (x, y) = ($x, $y);
+        match $split {
+            0 => {
+                futures_util::join!(
+                    bulk_sender(Direct(&x), $ops, $b.clone(), $sd),
+                    bulk_receiver(Direct(&y), $b.clone(), $rd, $pace, $rcap),
+                );
+            }
+            1 => {
+                let (_xr, xw) = x.split();
+                let (yr, _yw) = y.split();
+                futures_util::join!(
+                    bulk_sender(BorrowedW(xw), $ops, $b.clone(), $sd),
+                    bulk_receiver(BorrowedR(yr), $b.clone(), $rd, $pace, $rcap),
+                );
+            }
+            _ => {
+                let (_xr, xw) = x.into_split();
+                let (yr, _yw) = y.into_split();
+                let t1 = compio_runtime::spawn(bulk_sender(Owned(xw), $ops, $b.clone(), $sd));
+                let t2 = compio_runtime::spawn(bulk_receiver(Owned(yr), $b.clone(), $rd, $pace, $rcap));
+                for t in [t1, t2] {
+                    compio_runtime::ResumeUnwind::resume_unwind(t.await);
+                }
+            }
+        }
+    }};
+}
+
+fn bulk_watchdog_ms() -> u64 {
+    std::env::var("C14_BULK_WATCHDOG_MS").ok().and_then(|s| s.parse().ok()).unwrap_or(45000)
+}
+
+fn bulk_case(c: &mut Case) -> Result<Vec<u64>, BadCase> {
+    let drv = c.take()?;
+    let tr = c.take()?;
+    let split = c.take()?;
+    let sbuf = c.take()?;
+    let rbuf = c.take()?;
+    let seed = c.take()?;
+    let who = c.take()?;
+    let delay = c.take()?;
+    let pace = c.take()?;
+    let rcap = c.take()?;
+    let n = c.take()? as usize;
+    if tr > 1 || split > 2 || sbuf > (1 << 22) || rbuf > (1 << 22) || seed > 60000 || who > 1
+        || delay > 500 || pace > 1000 || rcap == 0 || rcap > (1 << 20) || n == 0 || n > 8
+    {
+        return Err(BadCase);
+    }
+    let mut ops = Vec::new();
+    let mut sum = 0u64;
+    for _ in 0..n {
+        let (k, a, b) = (c.take()?, c.take()?, c.take()?);
+        if k == 0 || k > 6 || a == 0 || a > (8 << 20) || b == 0 || b > (8 << 20) {
+            return Err(BadCase);
+        }
+        sum += a;
+        ops.push(Op { k, a, b });
+    }
+    if c.i != c.v.len() || sum > (16 << 20) {
+        return Err(BadCase);
+    }
+    let rt = build_rt(drv, 4096, 4)?;
+    let log = Rc::new(Log::default());
+    let b = Rc::new(Bulk {
+        seed,
+        spos: Cell::new(0),
+        rpos: Cell::new(0),
+        reads_done: Cell::new(0),
+        spanned: Cell::new(0),
+        eofs: Cell::new(0),
+        mismatch: Cell::new(false),
+        log: log.clone(),
+    });
+    let (sd, rd) = if who == 0 { (0, delay) } else { (delay, 0) };
+    let b2 = b.clone();
+    let fin = rt.block_on(async move {
+        let b = b2;
+        timeout(Duration::from_millis(bulk_watchdog_ms()), async move {
+            let pid = b.log.begin(0, 0, P_SETUP, 0, 0, 0);
+            if tr == 0 {
+                let l = TcpListener::bind("127.0.0.1:0").await.unwrap();
+                let addr = l.local_addr().unwrap();
+                let (x, y) = futures_util::join!(TcpStream::connect(addr), l.accept());
+                let (x, (y, _)) = (x.unwrap(), y.unwrap());
+                set_bufs(&x, sbuf, rbuf);
+                set_bufs(&y, sbuf, rbuf);
+                b.log.end(pid);
+                bulk_pair_run!(x, y, split, ops, b, sd, rd, pace, rcap as usize);
+            } else {
+                let path = uniq_path("bulk");
+                let _ = std::fs::remove_file(&path);
+                let l = UnixListener::bind(&path).await.unwrap();
+                let (x, y) = futures_util::join!(UnixStream::connect(&path), l.accept());
+                let _ = std::fs::remove_file(&path);
+                let (x, (y, _)) = (x.unwrap(), y.unwrap());
+                set_bufs(&x, sbuf, rbuf);
+                set_bufs(&y, sbuf, rbuf);
+                b.log.end(pid);
+                bulk_pair_run!(x, y, split, ops, b, sd, rd, pace, rcap as usize);
+            }
+        })
+        .await
+        .is_ok()
+    });
+    if !fin {
+        log.push([19, 1, b.spos.get(), b.rpos.get(), 0, 0, 0]);
+        return Ok(log.out_stalled());
+    }
+    let m = u64::from(!b.mismatch.get() && b.spos.get() == b.rpos.get());
+    log.push([9, 1, b.spos.get(), b.rpos.get(), m, b.eofs.get(), b.spanned.get()]);
     drop(rt);
     Ok(log.out())
 }
@@ -1626,6 +2015,7 @@ fn run(case: &[u64]) -> Result<Vec<u64>, BadCase> {
         1 => stream_case(&mut c),
         2 => dgram_case(&mut c),
         3 => accept_case(&mut c),
+        4 => bulk_case(&mut c),
         _ => Err(BadCase),
     }
 }
